@@ -46,18 +46,18 @@ theorem c17_ii_up (s : State) (h : inv s = true) : clauseIIup s (post s) = true 
       cases hnew : s.new with
       | none =>
         have := h2 hnew
-        simp only [optSpec]; omega
+        dsimp only [optSpec]; omega
       | some r =>
         have := h1 r hnew
-        simp only [optSpec]; omega
+        dsimp only [optSpec]; omega
     · rw [hn, ho]; simp only [optSpec]
       cases hnew : s.new with
       | none =>
         have := h2 hnew
-        simp only [optSpec]; omega
+        dsimp only [optSpec]; omega
       | some r =>
         have := h1 r hnew
-        simp only [optSpec]; omega
+        dsimp only [optSpec]; omega
 
 /-- **C17 (iv, budget)** old pods removed by one sync ≤ unhealthy old pods (cleaned first) plus
     `available − (replicas − maxUnavailable)`. -/
@@ -436,5 +436,98 @@ theorem c17_v_fair (σ : Nat → State) (h0 : live (σ 0) = true) (hrun : IsRun 
         rw [← hp] at h1
         exact ih (j + 1) (by omega)
   exact key _ 0 (Nat.le_refl _)
+
+
+/-! ## Witnesses of the known findings (negation of the full-strength clauses) and non-vacuity -/
+
+/-- an RS named by one byte, annotations in line with `R` replicas and `m` max replicas -/
+def rs (idx : Int) (c : Nat) (created revision spec pods avail R m : Int) : RS :=
+  { idx := idx, name := [c], created := created, revision := revision, spec := spec, pods := pods,
+    avail := avail, desired := some R, maxAnno := some m }
+
+/-- finding C17-F1: 4 replicas, partition 0, maxSurge 0, maxUnavailable 1, one full old RS, no new RS yet -/
+def wLowerBound : State :=
+  { replicas := 4, partition := .int 0, rolling := true, maxSurge := some (.int 0),
+    maxUnavailable := some (.int 1), paused := false, deleting := false, statusReplicas := 4, now := 3,
+    new := none, olds := [rs 0 97 0 1 4 4 4 4 4] }
+
+/-- **witness (i)**: the new RS is created with 1 replica although the partition allows 0
+    (real code: corpus/depsync/finding-1-lowerbound.jsonl). -/
+theorem c17_i_witness :
+    inv wLowerBound = true ∧ lowerBoundRegion wLowerBound = true ∧
+    clauseI wLowerBound (post wLowerBound) = false := by decide
+
+/-- **witness (iii)**: …and the total becomes replicas + maxSurge + 1. -/
+theorem c17_iii_witness :
+    inv wLowerBound = true ∧ lowerBoundRegion wLowerBound = true ∧
+    clauseIII wLowerBound (post wLowerBound) = false := by decide
+
+/-- finding C17-F2 (old RS): 4 replicas, maxUnavailable 1, maxSurge 2, partition 100%; old RS `b` was
+    scaled 4 → 2 earlier but its status still reports 4 available pods; old RS `a` has 3 unhealthy pods
+    that use up the clean-up budget, so the clean-up never reaches (and never rejects) `b` -/
+def wStale : State :=
+  { replicas := 4, partition := .pct 100, rolling := true, maxSurge := some (.int 2),
+    maxUnavailable := some (.int 1), paused := false, deleting := false, statusReplicas := 10, now := 5,
+    new := some (rs (-1) 110 2 3 1 1 1 4 6),
+    olds := [rs 0 97 0 1 3 3 0 4 6, rs 1 98 1 2 2 4 4 4 6] }
+
+/-- **witness (iv)**: 3 of the available pods are kept by the specs before the sync, 1 after it,
+    below replicas − maxUnavailable = 3 (real code: corpus/depsync/finding-2-stale.jsonl, line 1). -/
+theorem c17_iv_witness :
+    inv wStale = true ∧ stale wStale = true ∧ clauseIV wStale (post wStale) = false ∧
+    floorAvail wStale = 3 ∧ minAvailable wStale = 3 ∧ floorAvail (post wStale) = 1 := by decide
+
+/-- finding C17-F2 (new RS): the new RS was scaled to 0 but still reports 2 available pods -/
+def wStaleNew : State :=
+  { replicas := 4, partition := .int 5, rolling := true, maxSurge := some (.int 0),
+    maxUnavailable := some (.int 1), paused := false, deleting := false, statusReplicas := 6, now := 3,
+    new := some (rs (-1) 110 1 2 0 2 2 4 4),
+    olds := [rs 0 97 0 1 4 4 4 4 4] }
+
+/-- **witness (iv), second form** (corpus/depsync/finding-2-stale.jsonl, line 2): 4 kept before, 1 after. -/
+theorem c17_iv_witness_new :
+    inv wStaleNew = true ∧ stale wStaleNew = true ∧ clauseIV wStaleNew (post wStaleNew) = false ∧
+    floorAvail wStaleNew = 4 ∧ floorAvail (post wStaleNew) = 1 := by decide
+
+/-- non-vacuity of the partial theorems and of the scope: an ordinary mid-rollout state (10 replicas,
+    partition 5, surge 2, unavailable 2; old 6+2, new 2) is in scope, satisfies `I`, is outside both
+    guards, and the sync really acts on it (new RS 2 → 4). -/
+def wMid : State :=
+  { replicas := 10, partition := .int 5, rolling := true, maxSurge := some (.int 2),
+    maxUnavailable := some (.int 2), paused := false, deleting := false, statusReplicas := 10, now := 5,
+    new := some (rs (-1) 110 2 3 2 2 2 10 12),
+    olds := [rs 0 97 0 1 6 6 6 10 12, rs 1 98 1 2 2 2 2 10 12] }
+
+example : inv wMid = true ∧ inScope wMid = true ∧ lowerBoundRegion wMid = false ∧ stale wMid = false ∧
+    0 < oldTotal wMid ∧ newSpec (post wMid) = 4 ∧ oldTotal (post wMid) = 8 := by decide
+
+/-- non-vacuity of (ii′): old total 3 below the reserve 5 → raised to 5 -/
+def wLow : State :=
+  { wMid with olds := [rs 0 97 0 1 2 2 2 10 12, rs 1 98 1 2 1 1 1 10 12],
+              new := some (rs (-1) 110 2 3 5 5 5 10 12) }
+example : inv wLow = true ∧ inScope wLow = true ∧ oldTotal wLow = 3 ∧ reserve wLow (newSpec wLow) = 5 ∧
+    oldTotal (post wLow) = 5 := by decide
+
+/-- non-vacuity of (iv): the rolling scale-down really removes available old pods, down to the floor:
+    12 available, replicas − maxUnavailable = 8, unhealthy pod cleaned first -/
+def wDown : State :=
+  { wMid with maxSurge := some (.int 2), partition := .pct 100,
+              olds := [rs 0 97 0 1 6 6 5 10 12, rs 1 98 1 2 4 4 4 10 12],
+              new := some (rs (-1) 110 2 3 2 2 2 10 12) }
+example : inv wDown = true ∧ inScope wDown = true ∧ stale wDown = false ∧ floorAvail wDown = 11 ∧
+    minAvailable wDown = 8 ∧ oldTotal (post wDown) = 6 ∧ floorAvail (post wDown) = 8 := by decide
+
+/-- non-vacuity of (v): a live, settled, non-final state; one sync lowers the variant; the healthy
+    schedule finishes within `variant + 1` rounds (tests on literals, not the ∀ claim). -/
+def wCover : State :=
+  { replicas := 3, partition := .pct 100, rolling := true, maxSurge := some (.int 1),
+    maxUnavailable := some (.int 0), paused := false, deleting := false, statusReplicas := 3, now := 5,
+    new := some (rs (-1) 110 2 3 0 0 0 3 4),
+    olds := [rs 0 97 0 1 2 2 2 3 4, rs 1 98 1 2 1 1 1 3 4] }
+example : live wCover = true ∧ settled wCover = true ∧ final wCover = false ∧ variant wCover = 6 ∧
+    variant (post wCover) = 5 := by decide
+set_option maxRecDepth 8000 in
+example : final (rounds 7 wCover) = true ∧ newSpec (rounds 7 wCover) = 3 ∧ oldTotal (rounds 7 wCover) = 0 := by
+  decide
 
 end RV.Props.C17
